@@ -88,6 +88,8 @@ class Ghost:
         k = op[0]
         if k in "-km":
             return True
+        if k == 'U':
+            return self.usable(int(op[1:].split('.')[0]))
         if k == 'b':
             i = int(op[1:].split('.')[0])
             return self.usable(i)
@@ -123,7 +125,7 @@ class Ghost:
 
 
 RESTACK = "RLFB"
-SIMPLE = "shtxg"
+SIMPLE = "shtxgy"
 
 
 def gen_wf_script(rnd, maxops, events, release):
@@ -141,9 +143,13 @@ def gen_wf_script(rnd, maxops, events, release):
         """a short handler body about window i or its neighbours"""
         others = [j for j in range(1, nwin) if g.held(j)]
         j = rnd.choice(others) if others else i
+        serial = sum(1 for t in toks if t[0] == 'b')      # the number this handler will get
+        if rnd.random() < 0.2:
+            # unbind itself, then something that dispatches another event on the same window
+            return "U%d.%d,%s" % (i, serial, rnd.choice(["y%d" % i, "t%d" % i, "y%d,t%d" % (i, i), "x%d" % i, "-"]))
         return rnd.choice([
             "c%d,u%d" % (i, i), "u%d" % i, "c%d,u%d" % (j, j), "u%d" % j, "c%d" % j, "r%d" % j, "R%d" % j, "h%d" % j,
-            "L%d,c%d,u%d" % (j, j, j), "n%d.0" % j, "f0", "t%d" % j, "-", "-",
+            "L%d,c%d,u%d" % (j, j, j), "n%d.0" % j, "f0", "t%d" % j, "y%d" % j, "y%d" % i, "-", "-",
         ])
 
     for _ in range(maxops):
@@ -234,9 +240,38 @@ def gen_W(tier, seed, info):
                          ["r3", "c1", "u1", "u3"], ["r3", "u1", "f0", "u3"], ["c1", "c2", "u2", "u1"], ["u0"]):
                 stats["exhaustive"] += 1
                 yield "W n0.0 n1.0 n2.0 %s%d %s f0" % (rs, target, " ".join(tear))
+    # handlers that unbind themselves and then cause a nested dispatch on their own window
+    # (set_geometry -> GEOMCHANGE, take_focus -> FOCUS), alone or followed by a second handler
+    for target, pre in ((1, ["n0.0"]), (0, []), (2, ["n0.0", "n1.0"])):
+        for kind, evs in (("k.0", ["k"]), ("m.ff", ["mp"]), ("m.ff", ["mp", "md", "mr"])):
+            for nested in ("y%d", "t%d", "y%d,t%d", "t%d,y%d", "h%d,s%d"):
+                for second in (False, True):
+                    for ret in (0, 1):
+                        body = "U%d.0,%s" % (target, nested.replace("%d", str(target)))
+                        toks = pre + ["b%d.%s.%d.%s" % (target, kind, ret, body)]
+                        if second:
+                            toks.append("b%d.%s.0.y%d" % (target, kind, target))
+                        stats["exhaustive"] += 1
+                        yield "W " + " ".join(toks + evs + evs + ["f0"])
+    # a leaf that gets the key first (focused or stealing input) destroys an ancestor and lets the
+    # dispatch continue there
+    for leaf_first in (["t2"], ["S2.1"], ["t2", "S2.1"]):
+        for keep in ([], ["r2"], ["r2", "r1"]):
+            for body in ("c1,u1", "u1", "c1", "c1,u1,c2,u2", "h1,c1,u1", "c0,u0", "u0"):
+                for ret in (0, 1):
+                    for ev in ("k", "mp"):
+                        kind = "k.0" if ev == "k" else "m.ff"
+                        stats["exhaustive"] += 1
+                        yield "W n0.0 n1.0 %s b2.%s.%d.%s %s %s f0" % (
+                            " ".join(keep + leaf_first), kind, ret, body, ev, ev)
+    # the same one level deeper: the leaf destroys the middle window of a four-level chain
+    for body in ("c2,u2", "c1,u1", "u2", "c2,u2,c1,u1"):
+        for keep in (["r3"], ["r3", "r2"], []):
+            stats["exhaustive"] += 1
+            yield "W n0.0 n1.0 n2.0 %s t3 b3.k.0.0.%s k k f0" % (" ".join(keep), body)
     info["exhaustive"] = True
     info["exhaustive_scope"] = ("W: 2 tree shapes (two siblings; parent+child) x every sequence of <= %d calls over %s; "
-                                "16 flag combinations x 3 depths x 6 teardown orders; 4 restack kinds x 2 targets in a 3-level chain x 10 teardown orders" % (L, " ".join(alpha)))
+                                "16 flag combinations x 3 depths x 6 teardown orders; 4 restack kinds x 2 targets in a 3-level chain x 10 teardown orders; self-unbinding handlers x 5 nested dispatches x 3 positions x 3 event kinds; leaf handlers destroying an ancestor (focus/steal x kept references x 7 bodies x key/mouse)" % (L, " ".join(alpha)))
     # --- random well-formed lifecycles, without and with events
     n_wf = 2500 if tier == "quick" else 60000
     for _ in range(n_wf):
